@@ -45,6 +45,9 @@ use crate::RefCnt;
 const NODE_UNUSED: usize = 0;
 const NODE_USED: usize = 1;
 const NODE_COOLDOWN: usize = 2;
+/// Someone is just deciding if the cooldown is over (and is the only one allowed to move the node
+/// out of this state).
+const NODE_CHECKING: usize = 3;
 
 /// The head of the debt linked list.
 static LIST_HEAD: AtomicPtr<Node> = AtomicPtr::new(ptr::null_mut());
@@ -121,20 +124,35 @@ impl Node {
     ///
     /// See the ABA protection at the [helping].
     fn check_cooldown(&self) {
-        // Check if the node is in cooldown, for two reasons:
-        // * Skip most of nodes fast, without dealing with them.
-        // * More importantly, sync the value of active_writers to be at least the value when the
-        //   cooldown started. That way we know the 0 we observe happened some time after
-        //   start_cooldown.
-        if self.in_use.load(Acquire) == NODE_COOLDOWN {
-            // The rest can be nicely relaxed ‒ no memory is being synchronized by these
-            // operations. We just see an up to date 0 and allow someone (possibly us) to claim the
-            // node later on.
-            if self.active_writers.load(Relaxed) == 0 {
-                let _ = self
-                    .in_use
-                    .compare_exchange(NODE_COOLDOWN, NODE_UNUSED, Relaxed, Relaxed);
-            }
+        // Take the node out of the cooldown for the time of the check. Two reasons for the
+        // Acquire:
+        // * Sync the value of active_writers to be at least the value when the cooldown started.
+        //   That way we know the 0 we observe happened some time after start_cooldown.
+        // * Take over whatever the previous owner released, to pass it on below.
+        //
+        // It has to be an exclusive state, not just a look. The in_use has no version. If we only
+        // read COOLDOWN here and did the COOLDOWN -> UNUSED exchange after looking at
+        // active_writers, the node could get claimed, used (with a writer coming in) and sent to
+        // cooldown again in between, and we would release that later cooldown with the writer
+        // still inside, based on the 0 from the previous one.
+        //
+        // (The load is there only to skip most of the nodes fast, without writing to them.)
+        if self.in_use.load(Relaxed) == NODE_COOLDOWN
+            && self
+                .in_use
+                .compare_exchange(NODE_COOLDOWN, NODE_CHECKING, Acquire, Relaxed)
+                .is_ok()
+        {
+            // Nobody else touches in_use while it is in CHECKING (the others skip such node, the
+            // same as a used one), so whatever we decide here is about this very cooldown.
+            let verdict = if self.active_writers.load(Relaxed) == 0 {
+                NODE_UNUSED
+            } else {
+                NODE_COOLDOWN
+            };
+            // Release: a store (unlike the exchange above) doesn't continue the release sequence
+            // of start_cooldown, so we pass what we acquired on ourselves.
+            self.in_use.store(verdict, Release);
         }
     }
 
